@@ -285,6 +285,20 @@ impl RollingWriter {
         &self.file_number
     }
 
+    #[cfg(mrecordlog_verif)]
+    pub(crate) fn verif_cursor(&self) -> (u64, usize, usize) {
+        (
+            self.file_number.file_number(),
+            self.offset,
+            self.file.buffer().len(),
+        )
+    }
+
+    #[cfg(mrecordlog_verif)]
+    pub(crate) fn verif_files(&self) -> Vec<(u64, usize)> {
+        self.directory.files.verif_files()
+    }
+
     pub fn size(&self) -> usize {
         self.directory.files.count() * FILE_NUM_BYTES
     }
